@@ -1,5 +1,5 @@
+import Lean.Elab.Tactic
 import Juniper.Model.ParDo
-import Juniper.Proofs.SkeletonParDo
 /-! Basic facts for the `parallel.Do` / `DoContext` model: the regenerated guards mean what the
 proofs assume (`Code.Sound`: the tactic `pardo_sound`), the clamping arithmetic, and the shape of reachable states. -/
 set_option linter.unusedSimpArgs false
@@ -8,24 +8,33 @@ set_option linter.unusedVariables false
 namespace Juniper.Proofs.ParDo
 open Juniper.Gen Juniper.Model.ParDo
 
-/-- `pardo_sound hc` proves `cfg.code.Sound` from `hc : cfg.code = doCode ∨ cfg.code = dcCode`: every field of
-`Code.Sound` by evaluating the regenerated definitions (`rfl` / `decide`), `under` the control-skeleton ties
-of the body (top level, sequential path, worker loop — the statement order `step` hard-wires).
+open Lean Elab Tactic in
+/-- closes one tie (a field of `Code.Sound` / `Wrapper.Sound`, the control skeletons among them) by `decide` /
+`rfl` on the regenerated definitions; otherwise fails naming the tie -/
+elab "pardo_tie_field" : tactic => do
+  try
+    evalTactic (← `(tactic| first | decide | (intros; rfl)))
+  catch _ =>
+    let g ← getMainGoal
+    let stmt := (← Lean.Meta.ppExpr (← g.getType)).pretty 100000
+    throwError "tie broken: {stmt} -- a fact regenerated from the Go source (Juniper.Gen.Par / ParDoFacts / SkeletonPar) is not what the model and its proofs assume"
 
-There is deliberately **no closed lemma** `doCode.Sound` in `Proofs/`: every property theorem of
-`Props/C13*.lean` runs this tactic itself, so that a changed fact (an operator flipped, a loop header or a
-clamp assignment changed, a statement dropped in `parallel.go`) makes *the property theorems* fail to
-compile, by name, rather than a lemma upstream of them. -/
+/-- `pardo_sound hc` proves `cfg.code.Sound` from `hc : cfg.code = doCode ∨ cfg.code = dcCode`: every field of
+`Code.Sound` by evaluating the regenerated definitions (`rfl` / `decide`) — the guards, loop headers, clamp
+bodies, the presence conjunct `structural`, and `skeleton`: the control skeletons of the body (top level,
+sequential path, worker loop — the statement order `step` hard-wires).
+
+There is deliberately **no closed lemma** `doCode.Sound` (nor a closed `pskel…_tie`) in `Proofs/`: `Code.Sound` is a
+hypothesis of every lemma there, and every property theorem of `Props/C13*.lean` runs this tactic itself, so
+that a changed fact or skeleton (an operator flipped, a loop header or a clamp assignment changed, a statement
+added, dropped or moved in `parallel.go`) makes *the property theorems* fail to compile, by name, with
+"tie broken: <statement>", rather than a lemma upstream of them. -/
 syntax "pardo_sound " term : tactic
 macro_rules
   | `(tactic| pardo_sound $hc:term) =>
     `(tactic| (
       have hcode := $hc
-      rcases hcode with h | h <;> rw [h]
-      · exact Juniper.Proofs.SkeletonPar.under Juniper.Proofs.SkeletonPar.pskelDo_ties
-          (by constructor <;> first | decide | (intros; rfl))
-      · exact Juniper.Proofs.SkeletonPar.under Juniper.Proofs.SkeletonPar.pskelDoContext_ties
-          (by constructor <;> first | decide | (intros; rfl))))
+      rcases hcode with h | h <;> rw [h] <;> constructor <;> pardo_tie_field))
 
 theorem loopCount_lt (cond : Int → Bool) (post : Int → Int) (p : Int) (hc : ∀ j, cond j = decide (j < p))
     (hp : ∀ j, post j = j + 1) :
